@@ -263,7 +263,6 @@ def _jobs(tier):
         add(n=3, kind='T1', side='long', exch='spot')
         add(n=3, kind='T4', side='long', exch='spot')
         add(n=4, kind='T4', side='long', exch='futures')
-        add(n=4, kind='T7', side='long', exch='futures')
         add(n=3, kind='T7', side='long', exch='spot')
     return jobs
 
